@@ -1906,6 +1906,10 @@ func runNOTIFY(c *Ctx) {
 	if nErr == 0 {
 		c.Undecided(notified, P.Pos(notified.Pos()), "no error path", notified.Name()+" has no tested error result; the rule expects it to load the link")
 	}
+	if step := c.MustFunc("(*Mast).diffOne"); step != nil {
+		notifyConsumed(c, S, step, notified)
+		notifyNoReset(c, S, step, notified, report)
+	}
 }
 
 func lpCallNameOf(call *ssa.Call) string {
@@ -2077,6 +2081,7 @@ func runDIFFREADS(c *Ctx) {
 		c.Undecided(nil, "-", "no driver of the diff step", "no function reachable from the diff entry points calls "+step.Name())
 	}
 	diffReadsSameKey(c, S, step)
+	diffReadsPassThrough(c, S, step)
 	diffReadsNotified(c, S, notified)
 }
 
@@ -2331,5 +2336,387 @@ func diffReadsNotified(c *Ctx, S *sidesInfo, notified *ssa.Function) {
 	}
 	if n == 0 {
 		c.Undecided(notified, P.Pos(notified.Pos()), "no load", notified.Name()+" does not load; the rule expects it to read the link it is asked about")
+	}
+}
+
+// offersLink: the call hands the link of item to alreadyNotified — directly,
+// or through a helper of the diff that calls alreadyNotified with the
+// corresponding parameter before each of its successful returns.
+func (S *sidesInfo) offersLink(ci ssa.CallInstruction, item ssa.Value, notified *ssa.Function) bool {
+	callee := ci.Common().StaticCallee()
+	args := ci.Common().Args
+	if callee == nil || len(args) == 0 {
+		return false
+	}
+	isLink := func(v ssa.Value) bool {
+		it, ok := S.itemLink(v)
+		return ok && it == item
+	}
+	if callee == notified {
+		return isLink(args[len(args)-1])
+	}
+	if !S.slice[callee] {
+		return false
+	}
+	for i, a := range args {
+		if i >= len(callee.Params) {
+			break
+		}
+		asLink := isLink(a)
+		asItem := ir.ResolveCell(ir.Strip(a)) == item
+		if !asLink && !asItem {
+			continue
+		}
+		p := callee.Params[i]
+		ei := ir.ErrorResultIndex(callee.Signature)
+		for _, c2 := range CallsOf(callee) {
+			if c2.Common().StaticCallee() != notified {
+				continue
+			}
+			last := c2.Common().Args[len(c2.Common().Args)-1]
+			match := false
+			if asLink {
+				match = ir.ResolveCell(ir.Strip(last)) == ssa.Value(p)
+			} else if it, ok := S.itemLink(last); ok {
+				match = it == ssa.Value(p)
+			}
+			if !match {
+				continue
+			}
+			all := true
+			for _, r := range ir.Returns(callee) {
+				if ei >= 0 && !ir.IsNilConst(r.Results[ei]) {
+					continue // failing return
+				}
+				if !ir.MustPass(r, func(ins ssa.Instruction) bool { return ins == ssa.Instruction(c2) }) {
+					all = false
+				}
+			}
+			if all {
+				return true
+			}
+		}
+	}
+	return false
+}
+
+// notifyConsumed: a link item that the step consumes (does not push back
+// unchanged) is offered to alreadyNotified first — except on the edge where
+// the old and the new link are equal (nothing differs there). Otherwise a
+// node that belongs to one version only is descended through without ever
+// being reported.
+func notifyConsumed(c *Ctx, S *sidesInfo, step, notified *ssa.Function) {
+	P := c.P
+	oldItem, newItem, stacks, ok := stepItems(S, step)
+	if !ok {
+		c.Undecided(step, P.Pos(step.Pos()), "popped items not found", "the diff step does not pop one item per side")
+		return
+	}
+	isLinkOf := func(v ssa.Value, item *ssa.Call) bool {
+		it, ok := S.itemLink(v)
+		return ok && it == ssa.Value(item)
+	}
+	// equal-link edges
+	type edge struct{ from, to *ssa.BasicBlock }
+	var eqEdges []edge
+	for _, b := range step.Blocks {
+		for _, ins := range b.Instrs {
+			bin, isB := ins.(*ssa.BinOp)
+			if !isB || (bin.Op != token.EQL && bin.Op != token.NEQ) {
+				continue
+			}
+			if !(isLinkOf(bin.X, oldItem) && isLinkOf(bin.Y, newItem)) && !(isLinkOf(bin.X, newItem) && isLinkOf(bin.Y, oldItem)) {
+				continue
+			}
+			ifs, _ := sdCondIfs(bin)
+			for _, i := range ifs {
+				to := i.OnTrue
+				if bin.Op == token.NEQ {
+					to = i.OnFalse
+				}
+				eqEdges = append(eqEdges, edge{i.If.Block(), to})
+			}
+		}
+	}
+	ei := ir.ErrorResultIndex(step.Signature)
+	for _, sd := range []struct {
+		item *ssa.Call
+		s    side
+	}{{oldItem, sdOld}, {newItem, sdNew}} {
+		item := sd.item
+		other := oldItem
+		if item == oldItem {
+			other = newItem
+		}
+		blocked := map[*ssa.BasicBlock]bool{}
+		nOffer := 0
+		for _, ci := range CallsOf(step) {
+			if S.offersLink(ci, item, notified) {
+				blocked[ci.Block()] = true
+				nOffer++
+				continue
+			}
+			callee := ci.Common().StaticCallee()
+			if callee == nil || !S.slice[callee] {
+				continue
+			}
+			onStack, same := false, false
+			for _, a := range ci.Common().Args {
+				if sl := S.slotRef(a); sl != nil && stacks[sl] {
+					onStack = true
+				} else if ir.ResolveCell(ir.Strip(a)) == ssa.Value(item) {
+					same = true
+				}
+			}
+			if ml, _ := sdMayLoad(c, ci); onStack && same && !ml {
+				blocked[ci.Block()] = true // pushed back unchanged by a pure stack operation
+			}
+		}
+		// valuations: this item exists and carries a link; the other item is
+		// absent (0), an entry (1) or a link (2) — repeated tests of the same
+		// field are thereby answered consistently
+		reach := map[*ssa.BasicBlock]bool{}
+		for otherState := 0; otherState < 3; otherState++ {
+			leaf := func(cond ssa.Value) (bool, bool) {
+				v, tnn, ok := ir.NilTest(cond)
+				if !ok {
+					return false, false
+				}
+				nonNil, known := false, false
+				switch {
+				case ir.ResolveCell(ir.Strip(v)) == ssa.Value(item) || isLinkOf(v, item):
+					nonNil, known = true, true
+				case ir.ResolveCell(ir.Strip(v)) == ssa.Value(other):
+					nonNil, known = otherState != 0, true
+				case isLinkOf(v, other) && otherState != 0:
+					nonNil, known = otherState == 2, true
+				}
+				if !known {
+					return false, false
+				}
+				return nonNil == tnn, true
+			}
+			for b := range ir.ReachableFrom(step.Blocks[0], func(from, to *ssa.BasicBlock) bool {
+				return notifyPruned(from, to, blocked, leaf, func(f, t *ssa.BasicBlock) bool {
+					for _, e := range eqEdges {
+						if e.from == f && e.to == t {
+							return true
+						}
+					}
+					return false
+				})
+			}) {
+				reach[b] = true
+			}
+		}
+		bad := false
+		for _, r := range ir.Returns(step) {
+			if !reach[r.Block()] || ei < 0 || !ir.IsNilConst(r.Results[ei]) {
+				continue
+			}
+			c.Violation(step, P.InstrPos(r), fmt.Sprintf("%s link consumed without being offered to %s", sd.s, notified.Name()),
+				fmt.Sprintf("the step can return successfully with the %s item carrying a link, the links not being equal, the item not pushed back, and %s never asked about that link: a node of the %s version is descended through without being reported to the link callback", sd.s, notified.Name(), sd.s))
+			bad = true
+		}
+		if !bad {
+			c.OK(P.InstrPos(item), fmt.Sprintf("%s link item of %s", sd.s, step.Name()),
+				fmt.Sprintf("every successful path either pushes it back unchanged, takes the equal-link edge, or passes one of %d notification(s)", nOffer), false)
+		}
+	}
+}
+
+// notifyNoReset: once the step has asked alreadyNotified about a link (which
+// records it in the memo), a recorded link must not be cleared again in the
+// same step: the memo would suppress it for good.
+func notifyNoReset(c *Ctx, S *sidesInfo, step, notified *ssa.Function, report map[*sdSlot]side) {
+	P := c.P
+	// functions that (transitively) clear a report field
+	clears := map[*ssa.Function]bool{}
+	isClear := func(ins ssa.Instruction) *sdSlot {
+		st, ok := ins.(*ssa.Store)
+		if !ok || !ir.IsNilConst(st.Val) {
+			return nil
+		}
+		sl, _ := S.storeRoot(st.Addr)
+		if _, isRep := report[sl]; sl != nil && isRep {
+			return sl
+		}
+		return nil
+	}
+	for _, fn := range S.fns {
+		for _, b := range fn.Blocks {
+			for _, ins := range b.Instrs {
+				if isClear(ins) != nil {
+					clears[fn] = true
+				}
+			}
+		}
+	}
+	for changed := true; changed; {
+		changed = false
+		for _, fn := range S.fns {
+			if clears[fn] {
+				continue
+			}
+			for _, ci := range CallsOf(fn) {
+				if cal := ci.Common().StaticCallee(); cal != nil && clears[cal] {
+					clears[fn] = true
+					changed = true
+				}
+			}
+		}
+	}
+	inStep := c.Facts.Reach(step)
+	n := 0
+	for _, fn := range S.fns {
+		if !inStep[fn] {
+			continue
+		}
+		// notifications in fn: calls of alreadyNotified or of helpers containing one
+		var offers []ssa.CallInstruction
+		for _, ci := range CallsOf(fn) {
+			cal := ci.Common().StaticCallee()
+			if cal == nil {
+				continue
+			}
+			if cal == notified || (S.slice[cal] && cal != fn && c.Facts.Reach(cal)[notified] && !clears[cal]) {
+				offers = append(offers, ci)
+			}
+		}
+		for _, b := range fn.Blocks {
+			for _, ins := range b.Instrs {
+				what := ""
+				if sl := isClear(ins); sl != nil {
+					what = sl.field.Name() + " = nil"
+				} else if ci, ok := ins.(ssa.CallInstruction); ok {
+					if cal := ci.Common().StaticCallee(); cal != nil && clears[cal] && cal != step {
+						what = "call " + cal.Name()
+					}
+				}
+				if what == "" {
+					continue
+				}
+				n++
+				bad := false
+				for _, o := range offers {
+					if o != ins && ir.InstrReaches(o, ins) {
+						c.Violation(fn, P.InstrPos(ins), "recorded link cleared after the notification: "+what,
+							fmt.Sprintf("%s runs after %s has been asked (and has memoised the link) in the same step: the link recorded for the callback is wiped, and the memo prevents it from ever being reported again", what, notified.Name()))
+						bad = true
+						break
+					}
+				}
+				if !bad {
+					c.OK(P.InstrPos(ins), what+" in "+ir.FuncName(fn), "not after a notification of the same step", false)
+				}
+			}
+		}
+	}
+	_ = n
+}
+
+func notifyPruned(from, to *ssa.BasicBlock, blocked map[*ssa.BasicBlock]bool, leaf func(ssa.Value) (bool, bool), isEq func(f, t *ssa.BasicBlock) bool) bool {
+	if blocked[to] || isEq(from, to) {
+		return true
+	}
+	if len(from.Instrs) == 0 || len(from.Succs) != 2 || from.Succs[0] == from.Succs[1] {
+		return false
+	}
+	iff, isIf := from.Instrs[len(from.Instrs)-1].(*ssa.If)
+	if !isIf {
+		return false
+	}
+	v, known := sdEvalCond(iff.Cond, leaf, 0)
+	if !known {
+		return false
+	}
+	if v {
+		return to == from.Succs[1]
+	}
+	return to == from.Succs[0]
+}
+
+// diffReadsPassThrough: where the node loaded for one side is found to be a
+// pass-through node (exactly one link, no key) only that side descends; the
+// other side is not expanded there (its item goes back unchanged), or the
+// two sides get out of level and whole unchanged paths are read.
+func diffReadsPassThrough(c *Ctx, S *sidesInfo, step *ssa.Function) {
+	P := c.P
+	_, _, stacks, ok := stepItems(S, step)
+	if !ok {
+		return // reported by the same-key clause
+	}
+	// blocks under a fact len(<node of side s>.Link) == 1
+	passSide := func(b *ssa.BasicBlock) (side, ssa.Value) {
+		for _, f := range ir.FactsAt(b) {
+			bin, ok := f.Cond.(*ssa.BinOp)
+			if !ok {
+				continue
+			}
+			if !((bin.Op == token.EQL && f.Truth) || (bin.Op == token.NEQ && !f.Truth)) {
+				continue
+			}
+			x, y := bin.X, bin.Y
+			if _, isK := ir.ConstInt(x); isK {
+				x, y = y, x
+			}
+			if k, isK := ir.ConstInt(y); !isK || k != 1 {
+				continue
+			}
+			call, ok := x.(*ssa.Call)
+			if !ok {
+				continue
+			}
+			if bi, ok := call.Call.Value.(*ssa.Builtin); !ok || bi.Name() != "len" {
+				continue
+			}
+			node := sdAccessRoot(call.Call.Args[0])
+			if !sdIsNodePtr(node.Type()) {
+				continue
+			}
+			if sd := S.sideOf(node); sd.single() {
+				return sd, node
+			}
+		}
+		return sdNone, nil
+	}
+	nPass := 0
+	seen := map[*ssa.BasicBlock]bool{}
+	for _, ci := range CallsOf(step) {
+		b := ci.Block()
+		sd, _ := passSide(b)
+		if sd == sdNone {
+			continue
+		}
+		if !seen[b] {
+			seen[b] = true
+			nPass++
+		}
+		callee := ci.Common().StaticCallee()
+		if callee == nil || !S.slice[callee] {
+			continue
+		}
+		var st *sdSlot
+		var node ssa.Value
+		for _, a := range ci.Common().Args {
+			if sl := S.slotRef(a); sl != nil && stacks[sl] {
+				st = sl
+			} else if sdIsNodePtr(a.Type()) {
+				node = a
+			}
+		}
+		if st == nil || node == nil {
+			continue
+		}
+		pos := P.InstrPos(ci)
+		if st.cur != sd && st.cur.single() {
+			c.Violation(step, pos, fmt.Sprintf("%s side expanded in the %s pass-through branch", st.cur, sd),
+				fmt.Sprintf("the %s node has a single link (a pass-through node), so only the %s side descends; %s here pushes the children of the %s node as well: the two sides get out of level, links of common subtrees are no longer compared with each other, and the reads grow with the height of the tree", sd, sd, callee.Name(), st.cur))
+		} else {
+			c.OK(pos, fmt.Sprintf("%s in the %s pass-through branch of %s", callee.Name(), sd, step.Name()), "expands the descending side only", false)
+		}
+	}
+	if nPass > 0 {
+		c.OK(P.Pos(step.Pos()), fmt.Sprintf("%d pass-through block(s) of %s", nPass, step.Name()), "the other side is not expanded there", false)
 	}
 }
